@@ -54,7 +54,7 @@ def twin_run(ctx, wd, name, unit_src, driver_src, cc_flags=(), ref_flags=(), run
         return {"status": "harness", "stage": "gcc-unit", "stderr": err, "unit": u}
     exe = os.path.join(wd, name + ".exe")
     st, out, err = core.run_limited(GCC_DRV + ["-o", exe, d, name + "_cc.o", name + "_ref.o"] + list(extra_units) +
-                                    ["-Wl,-z,noexecstack", "-lm"], cwd=wd, timeout=300)
+                                    ["-no-pie", "-Wl,-z,noexecstack", "-lm"], cwd=wd, timeout=300)
     if st != 0:
         return {"status": "harness", "stage": "gcc-driver/link", "stderr": err, "unit": u}
     st, out, err = core.run_limited([exe], cwd=wd, timeout=run_timeout)
